@@ -162,4 +162,59 @@ theorem lookup_members (mtime : Nat) (control md5sums conffiles triggers : Bytes
       · exact hfile _ _ _ (hnames _ (by simp))
       · exact hfile _ _ _ (hnames _ (by simp))
 
+/-! ### ipk -/
+
+theorem ipkMembers_ok (mtime : Nat) (control conffiles : Bytes) (scripts : Bytes → Option Bytes)
+    (hm : mtime < 8 ^ 11) (hc : control.length < 8 ^ 11) (hf : conffiles.length < 8 ^ 11)
+    (hs : ∀ n b, scripts n = some b → b.length < 8 ^ 11) :
+    ∀ m ∈ ipkMembers mtime control conffiles scripts, Tar.MemberOK m := by
+  intro m hmem
+  unfold ipkMembers at hmem
+  rcases List.mem_append.mp hmem with h | h
+  · simp only [List.mem_cons, List.mem_nil_iff, or_false] at h
+    rcases h with rfl | rfl
+    · exact file_ok _ _ _ _ (by decide) (by decide) (by decide) hm hc
+    · exact file_ok _ _ _ _ (by decide) (by decide) (by decide) hm hf
+  · obtain ⟨s, hsl, hsm⟩ := List.mem_filterMap.mp h
+    cases hb : scripts s.1 with
+    | none => rw [hb] at hsm; simp at hsm
+    | some b =>
+      rw [hb] at hsm
+      simp only [Option.map_some, Option.some.injEq] at hsm
+      subst hsm
+      have hbl := hs s.1 b hb
+      simp only [ipkSlots, List.mem_cons, List.mem_nil_iff, or_false] at hsl
+      rcases hsl with rfl | rfl | rfl | rfl <;>
+        exact file_ok _ _ _ _ (by decide) (by decide) (by decide) hm hbl
+
+theorem lookup_ipkMembers (mtime : Nat) (control conffiles : Bytes) (scripts : Bytes → Option Bytes) :
+    lookup b!"control" (ipkMembers mtime control conffiles scripts) = some (file b!"control" 0o644 mtime control)
+    ∧ lookup b!"conffiles" (ipkMembers mtime control conffiles scripts) = some (file b!"conffiles" 0o644 mtime conffiles)
+    ∧ ∀ s ∈ ipkSlots, lookup s.1 (ipkMembers mtime control conffiles scripts) = (scripts s.1).map (file s.1 s.2 mtime) := by
+  refine ⟨by simp [ipkMembers, lookup, file], by simp [ipkMembers, lookup, file], ?_⟩
+  intro s hs
+  have hkey := lookup_scripts mtime scripts ipkSlots (by decide) s hs
+  unfold ipkMembers
+  have hnames : ∀ n ∈ [b!"control", b!"conffiles"], n ≠ s.1 := by
+    simp only [ipkSlots, List.mem_cons, List.mem_nil_iff, or_false] at hs
+    intro n hn
+    simp only [List.mem_cons, List.mem_nil_iff, or_false] at hn
+    rcases hn with rfl | rfl <;> rcases hs with rfl | rfl | rfl | rfl <;> decide
+  unfold lookup at hkey ⊢
+  change List.find? _ (file b!"control" 0o644 mtime control :: (file b!"conffiles" 0o644 mtime conffiles :: _)) = _
+  have h1 : decide ((file b!"control" 0o644 mtime control).hdr.name = b!"./" ++ s.1) = false := by
+    apply decide_eq_false
+    intro e
+    have : b!"./" ++ b!"control" = b!"./" ++ s.1 := e
+    rw [name_inj] at this
+    exact hnames _ (by simp) this
+  have h2 : decide ((file b!"conffiles" 0o644 mtime conffiles).hdr.name = b!"./" ++ s.1) = false := by
+    apply decide_eq_false
+    intro e
+    have : b!"./" ++ b!"conffiles" = b!"./" ++ s.1 := e
+    rw [name_inj] at this
+    exact hnames _ (by simp) this
+  rw [List.find?_cons, h1, List.find?_cons, h2]
+  exact hkey
+
 end Nfpm.DebCtl
